@@ -844,6 +844,8 @@ def round_trips(spec, tmpdir):
         FAM = {'asdf': 'asdf', 'fits': 'fits', 'fits.gz': 'fits', 'pkl': 'pickle'}
         read_back = {}
 
+        chain_err = [None]      # error kind of the hop that ended the current chain (None: a violation ended it)
+
         def hop(cur, fmt, route, k):
             """write an object that was itself read from a file, read it again; None when refused/failed"""
             fam = FAM[fmt]
@@ -855,6 +857,7 @@ def round_trips(spec, tmpdir):
                 write(cur, fn)
             except Exception as e:  # noqa
                 obs.setdefault('chain_refused', []).append('%s:%s' % (fmt, type(e).__name__))
+                chain_err[0] = ERRMAP.get(type(e).__name__, 'other:' + type(e).__name__)
                 if snapshot(what, cur) != before:
                     fails.append(('write-alters:%s:chain>%s:%s' % (what, fam, ck), 'a refused write (%s) altered the %s being written' % (route, what)))
                 return None
@@ -867,6 +870,7 @@ def round_trips(spec, tmpdir):
             except Exception as e:  # noqa
                 if expected_refusal(e) and fam != 'pickle':
                     obs.setdefault('chain_refused', []).append('%s:read-unregistered' % fmt)
+                    chain_err[0] = 'key'
                     return None
                 fails.append(('%s:chain>%s:%s' % (what, fam, ck), 'chain %s: the write succeeded but reading back raised %s: %s' % (
                     route, type(e).__name__, str(e)[:100])))
@@ -1028,12 +1032,30 @@ def round_trips(spec, tmpdir):
         for k, chain in enumerate(spec.get('chains') or []):
             cur = read_back.get(chain[0])
             route = chain[0]
+            o0 = obs['fmt'].get(chain[0], {})
+            chain_err[0] = o0.get('w') if o0.get('w') != 'ok' else (o0.get('r') if o0.get('r') not in ('ok', '-') else None)
             for fmt in chain[1:]:
                 if cur is None:
                     break
+                chain_err[0] = None
                 route += '>' + fmt
                 cur = hop(cur, fmt, route, k)
             unchanged('chain ' + route, 'chain')
+            # for the model (gridChain / fieldChain): the file names of the hops, the last object read or the error kind
+            rec = {'hops': ['x.' + chain[0]] + ['c%d.%s' % (k, fmt) for fmt in chain[1:]], 'out': None, 'err': None}
+            if cur is not None:
+                try:
+                    rec['out'] = encode(cur.to_dict())
+                except MachineryError:
+                    raise
+                except Exception:  # noqa
+                    rec = None
+            elif chain_err[0] is not None:
+                rec['err'] = chain_err[0]
+            else:
+                rec = None      # ended by a violation (reported above): nothing to compare
+            if rec is not None:
+                obs.setdefault('chain_out', []).append(rec)
     return obs, fails
 
 
@@ -1221,6 +1243,12 @@ def model_requests(spec, obs):
                 reqs.append(('format', 'C16 format %s %s' % (o['name'], fm), 'ok ' + o['fam']))
             elif what == 'grid':        # a grid write is refused only when no format is found
                 reqs.append(('format', 'C16 format %s %s' % (o['name'], fm), 'err ' + o['w']))
+    # chains of files (A > B > C): the last object read, or the kind of the refusal that ended the chain
+    if what in ('grid', 'field') and (what == 'grid' or 'dict_tree' in obs):
+        lay = obs['getstate'][0] if (what == 'field' and 'getstate' in obs) else ('c' if what == 'field' else '-')
+        for rec in obs.get('chain_out', []):
+            exp = ('ok ' + rec['out']) if rec['out'] is not None else ('err ' + rec['err'])
+            reqs.append(('chain', 'C16 chain %s %s %s %s' % (what, lay, ','.join(h + ':-' for h in rec['hops']), tree), exp))
     # to_dict and the FITS writer as programs over the object: _weights None-ness before / after
     wn = obs.get('wnone', {})
     if (what == 'grid' or 'dict_tree' in obs) and 'after_dict' in wn and 'after_fits' in wn:
@@ -1425,6 +1453,7 @@ def run(ctx):
                 'stream filert: write_*(x, name, fmt) then read_*(name, fmt) for a pool of (file name, fmt argument) pairs (guessed extensions, '
                 'nothing to guess, explicit fmt overriding the name, fmt strings no branch takes) vs the model\'s write...File / read...File '
                 '(write status, format found in the file by its magic bytes, read status, object read); stream guess: _guess_file_format on generated names; '
+                'stream chain: the last object read after each A>B>C chain of files (or the refusal that ended it) vs gridChain / fieldChain; '
                 'ravel/unravel now with NumPy\'s refusals (out of bounds, wrong length, empty axis). '
                 'Non-trivial = more than one grid point; distinct by the full description tuple.')
     ctx.assumptions += ['asdf, astropy.io.fits and pickle store and return arrays faithfully (exercised, not proved); for asdf files and grid '
@@ -1497,7 +1526,7 @@ def run(ctx):
             resp, exp = canon_scalars(resp), canon_scalars(exp)
         if label.startswith('file-') or label == 'todict-st':
             resp, exp = canon_answer(resp), canon_answer(exp)
-        if label == 'filert':
+        if label in ('filert', 'chain'):
             resp, exp = canon_answer(canon_scalars(resp)), canon_answer(canon_scalars(exp))
         if resp != exp:
             ctx.disagree('C16 ' + label, {'spec': spec, 'impl': exp[:2000], 'model': resp[:2000]})
